@@ -109,3 +109,32 @@ func Lift[T any](ctx context.Context, v T, f func(T) string) (string, error) {
 	)
 	return out, err
 }
+
+type Raw []byte
+
+// Fanin: consumers (a task and a predicate) that take two outputs of one
+// multi-output provider, and functions whose parameter lists repeat a type
+// before a different one (also with a later type assignable to the repeated one).
+func Fanin(ctx context.Context, seed int) (string, string, error) {
+	var (
+		out  string
+		out2 []string
+	)
+	err := cff.Flow(ctx,
+		cff.Params(seed),
+		cff.Results(&out, &out2),
+		cff.Task(func(i int) (int8, int16) { return int8(i), int16(i) * 2 }),
+		cff.Task(func(a int8, b int16) int32 { return int32(a) + int32(b) }),
+		cff.Task(
+			func(x int32) uint8 { return uint8(x) },
+			cff.Predicate(func(a int8, b int16) bool { return int16(a) < b }),
+		),
+		cff.Task(func(x, y int32, u uint8) string { return strconv.Itoa(int(x) + int(y) + int(u)) }),
+		cff.Task(func(s string) ([]byte, Raw) { return []byte(s), Raw(s + "!") }),
+		cff.Task(func(a, b []byte, r Raw) []string { return []string{string(a), string(b), string(r)} }),
+	)
+	if len(out2) == 0 {
+		return out, "", err
+	}
+	return out, out2[len(out2)-1], err
+}
